@@ -307,6 +307,8 @@ def check(case, acc=None):
         return check_history(case, acc)
     if case['kind'] == 'override':
         return check_override(case, acc)
+    if case['kind'] == 'ctor':
+        return check_ctor(case)[0]
     if case['kind'] == 'overlong':
         return check_overlong(case['v'], case['dt'])[0]
     return check_input(case, acc)
@@ -475,8 +477,80 @@ def check_overlong(v, dt):
     return out, True
 
 
+def check_ctor(case):
+    """a stand-alone element built by its constructor (class, name or none, datatype or none): what STRICT builds TOLERANT builds
+    too, under the same name and datatype, and both encode the same after the same value was given"""
+    from hl7apy import core
+    from hl7apy.exceptions import HL7apyException
+    v, cls, name, dt = case['v'], case['cls'], case['name'], case['dt']
+    C = getattr(core, cls)
+
+    def build(level):
+        kw = {'version': v, 'validation_level': level}
+        if dt is not None:
+            kw['datatype'] = dt
+        return C(name, **kw) if name is not None else C(**kw)
+    what = '%s %s(%r%s)' % (v, cls, name, '' if dt is None else ', datatype=%r' % dt)
+    try:
+        es = build(STRICT)
+    except (HL7apyException, ValueError):
+        return [], False
+    except Exception as e:
+        return [('C05-constructor-raises:%s' % type(e).__name__, '%s under STRICT: %s' % (what, e))], True
+    try:
+        et = build(TOL)
+    except Exception as e:
+        return [('C05-constructor-strict-accepts-what-tolerant-rejects:%s' % type(e).__name__, '%s: STRICT builds %r, TOLERANT raises %s' % (what, es, e))], True
+    if (es.name, es.datatype) != (et.name, et.datatype):
+        return [('C05-constructor-result-differs', '%s: STRICT (%r, %r) TOLERANT (%r, %r)' % (what, es.name, es.datatype, et.name, et.datatype))], True
+    val = case['val']
+    try:
+        es.value = val
+    except (HL7apyException, ValueError):
+        return [], True
+    except Exception as e:
+        return [('C05-constructor-value-raises:%s' % type(e).__name__, '%s under STRICT, value %r: %s' % (what, val, e))], True
+    try:
+        et.value = val
+        a, b = es.to_er7(), et.to_er7()
+    except Exception as e:
+        return [('C05-constructor-strict-accepts-what-tolerant-rejects:value:%s' % type(e).__name__, '%s value %r: %s' % (what, val, e))], True
+    if a != b:
+        return [('C05-constructor-encodings-differ', '%s value %r: STRICT %r TOLERANT %r' % (what, val, a, b))], True
+    return [], True
+
+
+def ctor_cases(v, rnd):
+    segs = [x for x in T.segments(v) if x != 'MSH']
+    cds = list(T.complex_datatypes(v))
+    fields = []
+    for s in rnd.sample(segs, 4) + [x for x in ('OBX', 'PID') if x in segs]:
+        rows = T.seg_fields(v, s)
+        fields += [r[0] for r in rnd.sample(list(rows), min(2, len(rows)))] + [r[0] for r in rows if r[2][2] == 'varies'][:1]
+    comps = []
+    for d in rnd.sample(cds, min(5, len(cds))):
+        ch = T.dt_children(v, d)
+        comps += [c[0] for c in rnd.sample(list(ch), min(2, len(ch)))]
+    dts = [None, 'ST', 'NM', 'varies', 'ID'] + rnd.sample(cds, min(3, len(cds)))
+    for cls, names in (('Field', fields + [None]), ('Component', comps + ['VARIES_1', 'VARIES_3', 'VARIES_12', None]),
+                       ('SubComponent', comps[:4] + [None])):
+        for name in names:
+            for dt in dts:
+                yield {'kind': 'ctor', 'v': v, 'cls': cls, 'name': name, 'dt': dt,
+                       'val': rnd.choice(['a', '12', 'a^b', 'a&b']) if cls != 'SubComponent' else rnd.choice(['a', '12'])}
+
+
 def run_shard(shard, acc):
     k = shard['kind']
+    if k == 'ctor':
+        import random
+        for v in T.VERSIONS:
+            for case in ctor_cases(v, random.Random(shard['seed'] * 31 + T.VERSIONS.index(v))):
+                vs, nt = check_ctor(case)
+                for sig, detail in vs:
+                    acc.violation(sig, case, detail)
+                acc.case(None, nt, sample=case, label='constructor:%s' % case['cls'], enumerated=True)
+        return
     if k == 'lengths':
         for v in T.VERSIONS:
             for dt in sorted(T.textual_classes(v)):
@@ -515,6 +589,8 @@ def plan(tier, seed):
     for i in range(4 if q else 12):
         shards.append({'kind': 'history', 'versions': T.VERSIONS, 'seed': seed * 1000 + 200 + i, 'n': 200 if q else 1500, 'shrink': not q})
     shards.append({'kind': 'lengths'})
+    for i in range(1 if q else 8):
+        shards.append({'kind': 'ctor', 'seed': seed * 10 + i})
     for i in range(2 if q else 8):
         shards.append({'kind': 'override', 'cells': cells[i::(2 if q else 8)], 'seed': seed * 1000 + 300 + i, 'n': 300 if q else 3000, 'shrink': not q})
     return shards
